@@ -55,7 +55,7 @@ class Fn:
         if isinstance(e, ast.Attribute) and e.attr == "itemsize" and isinstance(e.value, ast.Attribute) and e.value.attr == "dtype" \
                 and isinstance(e.value.value, ast.Name) and e.value.value.id in st["arrl"] and "itemsize" in self.nparams:
             # item size of a local that holds the codes: the codes' own, or that of whatever they were cast to
-            return self.nparams["itemsize"] if st["arrl"][e.value.value.id] == "codes" else "(N.of_nat castk)"
+            return self.nparams["itemsize"]        # (k = item size of the array that FOLLOWS the header, cast or not)
         if isinstance(e, ast.Call) and isinstance(e.func, ast.Name) and e.func.id == "len" and len(e.args) == 1 \
                 and isinstance(e.args[0], ast.Name) and e.args[0].id in st["arrl"]:
             return self.data_len
@@ -91,8 +91,8 @@ class Fn:
                 and isinstance(e.func.value, ast.Name) and e.func.value.id in st["arrl"] and self.body_bytes:
             if st["arrl"][e.func.value.id] == "codes":
                 return self.body_bytes
-            self.cast = True
-            return "(wr_codes castk codes)"
+            self.cast = True                       # recorded only: k then stands for the item size of the cast array
+            return self.body_bytes
         if isinstance(e, ast.Call) and isinstance(e.func, ast.Name) and e.func.id == "encode_plain" and len(e.args) == 2 \
                 and isinstance(e.args[0], ast.Name) and e.args[0].id in st["mask"] and isinstance(e.args[1], ast.Name) \
                 and e.args[1].id in st["boolse"]:
@@ -212,9 +212,9 @@ def translate(src):
            "From Pq Require Import Base.Bytes Base.ListX Codec.Varint Impl.WLevels.",
            "Import ListNotations.\nOpen Scope N_scope.\n",
            "Definition gen_make_definitions (no_nulls : bool) (version n : N) (packed : bytes) : bytes :=\n%s.\n" % t1,
-           "(* are the bytes behind the run header the codes array itself (signed integers of k bytes, as pandas holds them)? *)",
+           "(* information: are the bytes behind the run header the pandas codes array itself, or a cast of it (k = item size of what follows)? *)",
            "Definition gen_encode_dict_keeps_codes : bool := %s.\n" % ("false" if f2.cast else "true"),
-           "Definition gen_encode_dict (k : nat) %s(codes : list N) : bytes :=\n%s.\n" % ("(castk : nat) " if f2.cast else "", t2)]
+           "Definition gen_encode_dict (k : nat) (codes : list N) : bytes :=\n%s.\n" % t2]
     return "\n".join(out)
 
 
